@@ -68,6 +68,7 @@ for line in open(dump):
     f = line.rstrip('\n').split('\t')
     if f[0] == 'UNTRIAGED':
         fn, kind, expr, pos, cnt = f[1], f[2], f[3], f[4], int(f[5][1:])
+        raw = f[7] if len(f) > 7 else expr
     elif f[0] == 'UNTRIAGED-R3':
         parts = f[1].split(' ')
         # "<func> <Kind> <rest>"
@@ -75,14 +76,16 @@ for line in open(dump):
             if ' ' + k + ' ' in f[1]:
                 fn, rest = f[1].split(' ' + k + ' ', 1)
                 kind, expr = k, rest
-        cnt = int(f[2][1:]); pos = f[3]
+        cnt = int(f[2][1:]); pos = f[3]; raw = expr
     else:
         continue
-    sites[(fn, kind, expr)] = max(cnt, sites.get((fn, kind, expr), 0))
+    sites[(fn, kind, expr)] = max(cnt, sites.get((fn, kind, expr), (0, raw))[0]), raw
 out, missing = [], []
-for (fn, kind, expr), cnt in sorted(sites.items()):
+for (fn, kind, expr), (cnt, raw) in sorted(sites.items()):
     for rf, rk, re_, reason in R:
-        if rf.search(fn) and rk.search(kind) and re_.search(expr):
+        # rules are written against the expression as it appears in the source; the table stores the
+        # normalised form (locals replaced by their types) that the checker keys on
+        if rf.search(fn) and rk.search(kind) and re_.search(raw):
             out.append({"func": fn, "kind": kind, "expr": expr, "count": cnt, "reason": reason})
             break
     else:
